@@ -143,6 +143,12 @@ func c03(c *ctx) {
 					}
 					reason = reason[:ln]
 				}
+				// (an earlier body for the same arguments, modified in place by its owner - e.g. masked -
+				// must not show through in the next one)
+				earlier := ws.NewCloseFrameBody(ws.StatusCode(code), string(reason))
+				for i := range earlier {
+					earlier[i] ^= 0x5a
+				}
 				body := ws.NewCloseFrameBody(ws.StatusCode(code), string(reason))
 				pc, pr := ws.ParseCloseFrameData(body)
 				uc, ur := ws.ParseCloseFrameDataUnsafe(body)
